@@ -325,6 +325,13 @@ func runJobPass(ld *loaded, spec *JobSpec, tier string, concrete map[string]uint
 	if nw == 0 {
 		nw = 16
 	}
+	if v := os.Getenv("VERIF_WORKERS"); v != "" { // fewer workers when several checks share the machine
+		var n int
+		fmt.Sscan(v, &n)
+		if n > 0 && n < nw {
+			nw = n
+		}
+	}
 	if concrete != nil || onlyPrefix != nil {
 		nw = 1
 	}
